@@ -261,6 +261,14 @@ func opJS(r *hx.Run, ty string, doc *jv, nontrivial bool) string {
 		if !ok {
 			return "unparsable"
 		}
+		// the decoded value must not reach into the caller's buffer (UnmarshalText is handed sub-slices of it)
+		raw := buf.Bytes()
+		for i := range raw {
+			raw[i] ^= 0x55
+		}
+		if b4, _ := json.Marshal(v); !bytes.Equal(b, b4) {
+			r.Fail("", "a decoded "+ty+" changed when the JSON buffer it was decoded from was overwritten: "+firstDiff(string(b), string(b4)))
+		}
 		// decoding what was just encoded must give the same value again
 		w := jsTypes[ty].fresh()
 		if err := json.Unmarshal(b, w); err != nil {
